@@ -20,10 +20,7 @@ def parse_struct_expect(r):
     def canon(vals):
         vals = [v for v in vals]
         return sorted(set(v for v in vals if v >= 0)) + sorted(set(v for v in vals if v < 0), reverse=True)
-    dow = []
-    for o, w in r.byday:
-        wd = w + 1
-        dow.append(wd + 7 * o if o > 0 else wd if o == 0 else -(wd + 7 * (-o - 1)))
+    dow = [((o << 3) | (w + 1)) for o, w in r.byday]          # pack_cd(): (cnt << 3) | dow
     until = "ffffffffffffffff"
     if r.until is not None:
         u = r.until
